@@ -388,6 +388,35 @@ fn run(ctx: &mut Ctx) {
     }
     let p4 = four_byte_payloads();
     ctx.par_sweep("payload=4-structured", p4.into_par_iter().flat_map_iter(move |p| (0..nctx).map(move |c| build(c, &p))), |c| check_case(&c));
+    // carry-over: a token that leaves raw bytes behind (unibyte string, byte
+    // vector, escaped character) followed by a token that is assembled from a
+    // prefix, under every parser option set; nothing of the first may show up
+    // in the text of the second
+    {
+        let first: [&[u8]; 7] = [b"\"\\200\"", b"\"\\377\\300\"", b"\"\\xff\"", b"#u8(255 128)", b"\"\xce\xbb\\200\"", b"?\\377", b"\"\\M-a\""];
+        let second: [&[u8]; 14] = [b"#%app", b"-x", b".a", b"+.b", b":k", b"k:", b"#:k", b"|a b|", b"abc", b"#\\x", b"\"s\"", b"1.5", b"...", b"#%\xce\xbb"];
+        let mut cases = Vec::new();
+        for q in 0..N_QOPT {
+            for a in first {
+                for b in second {
+                    for wrap in [false, true] {
+                        let mut input = Vec::new();
+                        if wrap {
+                            input.push(b'(');
+                        }
+                        input.extend_from_slice(a);
+                        input.push(b' ');
+                        input.extend_from_slice(b);
+                        if wrap {
+                            input.push(b')');
+                        }
+                        cases.push(Case { input, q, ctx: 255, payload: Vec::new() });
+                    }
+                }
+            }
+        }
+        ctx.par_sweep("carry-over", cases.into_par_iter(), |c| check_case(&c));
+    }
     // free-form inputs
     let parent = &*ctx;
     let children: Vec<Ctx> = (0..16u32)
